@@ -40,6 +40,11 @@ CHECKS["C20"] = ("model_checking",
     "Trusted: CbWords/CbRows/CbTime; the harness's MIDAS writer (accepted by midasio) and CSV reader. A counter-0 marker with its top bit set is left open by the statement and not judged.",
     "§4 C20")
 
+CHECKS["C19"] = ("model_checking",
+    "RunCsv.tla models the run-level bookkeeping: refusal rules, sort by initial timestamp, a worker pool that claims/finishes main events in any interleaving with an order-restoring collect, and the unwrapping scan with its previous-timestamp fallback. TLC explores every file subset x argument permutation x schedule of a universe that contains wraps, undecodable events first/middle/last, foreign runs, duplicate timestamps and unknown extensions. Seeded runs of real .mid/.mid.lz4 files go through both real binaries for several argument orders (all permutations for refusals) and thread counts; Trace_RunCsv recomputes refusal, row order, per-program decodability (TrgV3 on the bank bytes for the scalers), wrapped tick differences on 16-bit limbs, scaler columns from the TRG bytes, vertex columns against the library, and byte-identity across runs.",
+    "Trusted: RunCsv.tla, TrgV3.tla; the harness's MIDAS writer and CSV reader; vertex columns are compared with the library called on the same banks (no independent numeric oracle); only differences of trg_time are asserted.",
+    "§4 C19")
+
 NOT_APPLICABLE = {
     "C12": "population statistics of a floating-point pipeline against a physical forward model; TLA+/TLC has no reals or floats, so the spec cannot be the oracle",
     "C16": "decisive clause is a floating-point global minimisation over a continuum; only a numeric brute force could referee it, which is a different technique",
